@@ -6,22 +6,24 @@
 
    A value of the merge model is the number of a ==-class of (Meta, HashInfo) pairs; the
    identifier of a listing covers only the hash VALUE of each entry (Tree.digest serialises
-   without metadata), given by the table [hexof]. *)
+   without metadata) under each entry's own hash NAME (md5, sha256, etag, ...: a listing named by
+   an md5 identifier may hold entries hashed otherwise), given by the table [hexof : class ->
+   (hash name, hash value)]. *)
 From Coq Require Import NArith.
 From stdpp Require Import gmap.
 From DvcData Require Import Base.Val Model.Merge Proofs.MergeProofs Proofs.MergeTheorems.
 From DvcData Require Model.Listing.
 Open Scope N_scope.
 
-Definition tree_of (hexof : N → list N) (m : gmap (list (list N)) N) : Listing.tree :=
+Definition tree_of (hexof : N → list N * list N) (m : gmap (list (list N)) N) : Listing.tree :=
   (λ kv, {| Listing.e_key := kv.1; Listing.e_meta := None;
-            Listing.e_hash := Some (Listing.s_md5, hexof kv.2) |}) <$> map_to_list m.
+            Listing.e_hash := Some (hexof kv.2) |}) <$> map_to_list m.
 
-Definition listing_digest (hexof : N → list N) (m : gmap (list (list N)) N) : list N :=
+Definition listing_digest (hexof : N → list N * list N) (m : gmap (list (list N)) N) : list N :=
   Listing.digest (tree_of hexof m).
 
 (* merge(odb, ancestor_info, our_info, their_info, allowed) *)
-Definition merge_tree (hexof : N → list N) (load : list N → option (gmap (list (list N)) N))
+Definition merge_tree (hexof : N → list N * list N) (load : list N → option (gmap (list (list N)) N))
     (ai : option (list N)) (oi ti : list N) (allowed : policy) :=
   merge_obj load (listing_digest hexof) ai oi ti allowed.
 
@@ -48,11 +50,11 @@ Fixpoint assocN {A} (k : N) (l : list (N * A)) : option A :=
 (* (key universe, class -> hash value, store: identifier -> cells, ancestor_info, our_info,
     their_info, allowed) *)
 Definition tree_in : Type :=
-  list (list (list N)) * list (N * list N) * list (list N * list N) * option (list N) * list N * list N * policy.
+  list (list (list N)) * list (N * (list N * list N)) * list (list N * list N) * option (list N) * list N * list N * policy.
 
 Definition run_tree (i : tree_in) : val :=
   let '(ks, hexs, objs, ai, oi, ti, pol) := i in
-  let hexof := λ v, default [] (assocN v hexs) in
+  let hexof := λ v, default ([], []) (assocN v hexs) in
   let load := λ id, mk_dict ks <$> assoc id objs in
   match merge_tree hexof load ai oi ti pol with
   | Ok (id, m) => VL [VN 1; VB id; enc_dict ks m]
@@ -63,7 +65,8 @@ Definition run_tree (i : tree_in) : val :=
 Definition exd_ks : list (list (list N)) := [[[97]]; [[100]; [98]]; [[100]; [99]]; [[101]]].
 Definition exd_hex (c : N) : list N := repeat c 32.
 Definition exd_in : tree_in :=
-  (exd_ks, [(1, exd_hex 49); (2, exd_hex 50); (3, exd_hex 51); (4, exd_hex 52)],
+  (exd_ks, [(1, (Listing.s_md5, exd_hex 49)); (2, (Listing.s_md5, exd_hex 50)); (3, (Listing.s_md5, exd_hex 51));
+            (4, (Listing.s_md5, exd_hex 52))],
    [([65], [2; 3; 0; 0]); ([79], [2; 3; 4; 0]); ([84], [2; 3; 0; 5])],
    Some [65], [79], [84], None).
 (* python: hashlib.md5(json.dumps([{"md5":"1"*32,"relpath":"a"},{"md5":"2"*32,"relpath":"d/b"},
